@@ -60,11 +60,22 @@ ASSUMPTIONS = [
     "tokens (ino, mtime, size) are abstracted to fresh identities and file contents to injective content ids in the "
     "model; real bytes are judged by the oracle (hash = name, bytes = manifest)",
     "collision-freeness of md5 on the contents in play (hypothesis [consistent] of the theorems)",
+    "verify=True stream (VERIFY_STREAM, ON): writers calling transfer(verify=True) and stores configured verify=True "
+    "(transfer() always passes verify explicitly, so the store setting only matters for direct add() calls); extra "
+    "harness-made scheduling point before every check() of either class; those traces are SIMULATED by the extended "
+    "machine (vrun: VerifyDrop = post-add check removes a mismatching file and reports the id failed) - outcome "
+    "incl. the failed set compared in Coq - not covered by the legality-based soundness theorem",
     "hashing INSIDE one writer (build's thread pool for large files, imap_unordered) is C03's model (HashSched); "
     "here it is only exercised, not modelled: a share of the scheduled and free-running runs lowers the large-file "
     "threshold to 0 (patched from the harness as c03.py does), uses checksum_jobs in {None,2,4} and delays the read "
     "of selected files so the pool completes out of listing order; the manifest oracle judges the outcome",
 ]
+
+# verify=True writers (transfer(..., verify=True) / stores configured verify=True).  ON: as root the post-add
+# verification of one writer can read a file another writer's reflink probe has just truncated - a genuine
+# violation of "all writers succeed" on the unmodified code (signature VERIFY_SIG); the lead decides.
+VERIFY_STREAM = True
+VERIFY_SIG = "C16:root:verify-sees-probe-truncated-object"
 
 IMPORTS = "From Coq Require Import NArith List.\nFrom DvcData Require Import Model.Concurrent."
 
@@ -269,6 +280,20 @@ def _install():
         return orig_check(self, oid, *a, **kw)
 
     LocalHashFileDB.check = check
+
+    from dvc_data.hashfile.db import HashFileDB
+
+    orig_bcheck = HashFileDB.check
+
+    def bcheck(self, oid, *a, **kw):
+        s = _S
+        tid = getattr(_tl, "tid", None)
+        if (s is not None and s.on and tid is not None and type(self) is HashFileDB
+                and os.path.abspath(self.path) == s.root):
+            s.at_event(tid, ("sync", "check", oid))  # the base store's check (verify=True only)
+        return orig_bcheck(self, oid, *a, **kw)
+
+    HashFileDB.check = bcheck
     ObjectDB.oids_exist = wrap_exists(ObjectDB.oids_exist)
 
 
@@ -410,25 +435,26 @@ def _run_state_dir(ctx):
 
 
 
-def _writer_body(cls, store, ws, st):
+def _writer_body(cls, store, ws, st, verify=None):
     from dvc_objects.fs.local import localfs
 
     from dvc_data.hashfile.build import build
     from dvc_data.hashfile.transfer import transfer
 
-    odb = impl.make_odb(cls, store, state=st)
+    # verify: None | "call" (transfer(verify=True)) | "store" (the store is configured verify=True)
+    odb = impl.make_odb(cls, store, state=st, **({"verify": True} if verify == "store" else {}))
     cfg = _POOL.get("cfg")
     kw = {"checksum_jobs": cfg["jobs"]} if cfg is not None else {}
     staging, _meta, obj = build(odb, ws, localfs, "md5", **kw)
-    res = transfer(staging, odb, {obj.hash_info}, shallow=False)
+    res = transfer(staging, odb, {obj.hash_info}, shallow=False, **({"verify": True} if verify == "call" else {}))
     return obj.oid, sorted(h.value for h in res.failed)
 
 
-def _thread_main(s: Sched, tid, cls, store, ws, st, results):
+def _thread_main(s: Sched, tid, cls, store, ws, st, results, verify=None):
     _tl.tid = tid
     try:
         s.at_event(tid, ("sync", "start"))
-        results[tid] = ("ok",) + _writer_body(cls, store, ws, st)
+        results[tid] = ("ok",) + _writer_body(cls, store, ws, st, verify)
     except Abort:
         results[tid] = ("abort",)
     except BaseException as exc:  # noqa: BLE001
@@ -438,7 +464,8 @@ def _thread_main(s: Sched, tid, cls, store, ws, st, results):
         s.finish(tid)
 
 
-def run_threads(ctx, cls, wkls, schedule, prepop=None, free=False, shared_state=True, _root=None, pool=None):
+def run_threads(ctx, cls, wkls, schedule, prepop=None, free=False, shared_state=True, _root=None, pool=None,
+                verify=None):
     """returns dict(trace, grants, results, store, rows, leftovers, root)"""
     global _S
     from dvc_data.hashfile.state import State
@@ -467,7 +494,8 @@ def run_threads(ctx, cls, wkls, schedule, prepop=None, free=False, shared_state=
     s.free = free
     results: dict = {}
     ths = [threading.Thread(target=_thread_main, daemon=True,
-                            args=(s, i, cls, store, os.path.join(root, f"w{i}"), states[i % len(states)], results))
+                            args=(s, i, cls, store, os.path.join(root, f"w{i}"), states[i % len(states)], results,
+                                  (verify or [None] * n)[i]))
            for i in range(n)]
     _S = s
     if pool:
@@ -630,6 +658,7 @@ def abstract(cls, wkls, raw):
     tmp_owner: dict[str, tuple] = {}  # raw temp rel -> (tid, serial)
     serial: dict[int, int] = {}
     probe_open: set = set()  # (tid, oid) with an open probe
+    placed: set = set()  # (tid, oid) the writer has renamed into place itself
     renames_of_tmp = {}  # raw temp -> destination rel (for CopyTmp's id)
     for e in raw:
         if e[1] == "os.rename":
@@ -674,6 +703,9 @@ def abstract(cls, wkls, raw):
                 if (tid, c[1]) in probe_open:
                     probe_open.discard((tid, c[1]))
                     steps.append((tid, ("ProbeUnlink", c[1])))
+                elif (tid, c[1]) in placed:
+                    # only add(verify=True)'s check AFTER the copy removes a name its writer has placed
+                    steps.append((tid, ("VerifyDrop", c[1])))
                 else:
                     steps.append((tid, ("Remove", c[1])))
             elif c[0] == "tmp":
@@ -684,6 +716,7 @@ def abstract(cls, wkls, raw):
             a, b = classify(e[2]), classify(e[3])
             if a[0] == "tmp" and b[0] == "obj":
                 steps.append((tid, ("Rename", tmp_id(tid, e[2]), b[1])))
+                placed.add((tid, b[1]))
             elif a[0] == "tmp" and b[0] == "tmp":
                 x = tmp_id(tid, e[2])
                 steps.append((tid, ("RenameTmp", x, tmp_id(tid, e[3]))))
@@ -778,6 +811,31 @@ def step_term(nm: Names, st):
     raise ValueError(st)
 
 
+def vcase_term(cls, wkls, steps, objs, rows, leftovers, failed, prepop=None):
+    """(vsim_in, expected val): the extended machine with the verification step; failed = {(writer, file id)}"""
+    nm = Names()
+    wls = []
+    for wl in wkls:
+        man = manifest(wl)
+        wls.append("[" + "; ".join(f"({nm.ref(o)}, {nm.content(b)})" for o, b in man.items()) + "]")
+    pre = "[" + "; ".join(f"({nm.ref(o)}, {nm.content(b)})" for o, b in (prepop or {}).items()) + "]"
+
+    def vt(st):
+        if st[0] == "VerifyDrop":
+            return f"VerifyDrop {nm.ref(st[1])}"
+        return f"Base ({step_term(nm, st)})"
+
+    tr = "[" + ";\n  ".join(f"({tid}%nat, {vt(s)})" for tid, s in steps) + "]"
+    loc = "true" if cls == "local" else "false"
+    store = "; ".join(
+        f"VL [VB {nm.ref(o)}; VB {nm.content(objs[o][0])}; VN {1 if objs[o][1] == 0o444 else 0}]"
+        for o in sorted(objs, key=lambda s: s.encode()))
+    rowset = "; ".join(f"VB {nm.ref(o)}" for o in sorted(rows, key=lambda s: s.encode()))
+    fl = "; ".join(f"VB ({i} :: {nm.ref(o)})" for i, o in sorted(set(failed), key=lambda io: bytes([io[0]]) + io[1].encode()))
+    exp = f"VL [VN 1; VL [{store}]; VL [{rowset}]; VN {len(leftovers)}; VL [{fl}]]"
+    return nm.wrap(f"(({loc}, [{'; '.join(wls)}], {pre}, {tr}), {exp})")
+
+
 def case_term(cls, wkls, steps, objs, rows, leftovers, prepop=None):
     """(check_in_pre, expected val) as one let-wrapped Coq term"""
     nm = Names()
@@ -796,16 +854,16 @@ def case_term(cls, wkls, steps, objs, rows, leftovers, prepop=None):
     return nm.wrap(f"(({loc}, [{'; '.join(wls)}], {pre}, {tr}), {exp})")
 
 
-def coq_check(ctx, name, cases, shard):
+def coq_check(ctx, name, cases, shard, ty="check_in_pre", fn="enc_check_in_pre"):
     """cases: [(case_json, term)].  Records the correspondence obligation."""
     if not cases:
         return
     terms = [t for _, t in cases]
-    okfn = "fun c => val_eqb (enc_check_in_pre (fst c)) (snd c)"
+    okfn = f"fun c => val_eqb ({fn} (fst c)) (snd c)"
     try:
-        total, bad = ctx.coq_eval_failing(name, IMPORTS, "check_in_pre * val", okfn, terms, shard=shard)
+        total, bad = ctx.coq_eval_failing(name, IMPORTS, f"{ty} * val", okfn, terms, shard=shard)
     except RuntimeError as exc:
-        ctx.obligation(f"correspondence:{name}", False, "coq evaluation failed")
+        ctx.obligation(f"correspondence:{name}", False, "coq evaluation failed: " + " ".join(str(exc).split())[-260:])
         ctx.broken("correspondence", f"correspondence:{name}",
                    "the model could not be evaluated on the recorded traces", detail=str(exc)[-3000:])
         return
@@ -817,7 +875,7 @@ def coq_check(ctx, name, cases, shard):
         detail = []
         for bi in bad[:2]:
             cj, term = cases[bi]
-            mv = ctx.coq_eval_val(name, IMPORTS, f"enc_check_in_pre (fst {term})")
+            mv = ctx.coq_eval_val(name, IMPORTS, f"{fn} (fst {term})")
             detail.append({"case": cj, "model": mv if not isinstance(mv, list) or len(str(mv)) < 4000 else "large"})
         ctx.broken("correspondence", f"correspondence:{name}",
                    f"valid_trace rejects, or the model's final store differs from the audited store, on {len(bad)} of {total} recorded traces",
@@ -850,8 +908,8 @@ def overlap(wkls):
     return shared
 
 
-def scheduled_case(ctx, cls, wkls, schedule, style="given", prepop=None, pool=None):
-    run = run_threads(ctx, cls, wkls, schedule, prepop=prepop, pool=pool)
+def scheduled_case(ctx, cls, wkls, schedule, style="given", prepop=None, pool=None, verify=None):
+    run = run_threads(ctx, cls, wkls, schedule, prepop=prepop, pool=pool, verify=verify)
     problems, objs, leftovers, rows = judge(cls, wkls, run, prepop)
     steps, unknown = abstract(cls, wkls, run["trace"])
     gh = hashlib.sha1(bytes(run["grants"])).hexdigest()
@@ -860,6 +918,8 @@ def scheduled_case(ctx, cls, wkls, schedule, style="given", prepop=None, pool=No
         case["prepop"] = {k: v.hex() for k, v in prepop.items()}
     if pool:
         case["pool"] = pool
+    if verify:
+        case["verify"] = verify
     impl.rm_rf(run["root"])
     return case, run, problems, steps, unknown, objs, leftovers, rows, gh
 
@@ -883,6 +943,15 @@ def run(ctx):
     for cls, wkls, schedule in corpus:
         out = scheduled_case(ctx, cls, wkls, schedule, "corpus")
         _register(ctx, out, cases, seen_sched, unknown_total)
+    if VERIFY_STREAM:
+        # minimal reproduction, both classes: writer 0 verifies; writer 1 decided "new" before; writer 0 places the
+        # object; writer 1's probe truncates it; writer 0's post-add verification reads it
+        two = [{"a": b"shared"}, {"a": b"shared"}]
+        g_base = [int(c) for c in "11000000000000111001111111111111"]
+        g_local = [int(c) for c in "11111100000000000000111001111111111111111"]
+        for cls, g in (("base", g_base), ("local", g_local)):
+            out = scheduled_case(ctx, cls, two, g, "corpus-verify", verify=["call", None])
+            _register(ctx, out, cases, seen_sched, unknown_total)
     while len(seen_sched) < n_sched and time.time() - t_start < budget:
         i += 1
         cls = "local" if rng.random() < 0.6 else "base"
@@ -891,6 +960,10 @@ def run(ctx):
         style, schedule = gen_schedule(rng, n, 60 * n + 100)
         prepop = None
         pool = None
+        verify = None
+        if VERIFY_STREAM and i % 16 == 9:
+            verify = [rng.choice(["call", "call", "store", None]) for _ in range(n)]
+            verify[rng.randrange(n)] = "call"
         if i % 16 == 3:
             # the writer's own hashing pool (build's large-file path), completion order perturbed
             wkls = gen_pool_workloads(rng, n)
@@ -899,7 +972,7 @@ def run(ctx):
             man = manifest(wkls[0])
             k = rng.choice(list(man)[:-1])
             prepop = {k: man[k]}
-        out = scheduled_case(ctx, cls, wkls, schedule, style, prepop, pool)
+        out = scheduled_case(ctx, cls, wkls, schedule, style, prepop, pool, verify)
         _register(ctx, out, cases, seen_sched, unknown_total)
     t_trials = time.time() - t_start
     ctx.extra["schedules_distinct"] = len(seen_sched)
@@ -922,7 +995,9 @@ def run(ctx):
     # the model: every recorded trace accepted, final store = audited store
     shard = 20 if ctx.tier == "quick" else 100
     t1 = time.time()
-    coq_check(ctx, "traces", [(c, t) for c, t in cases if t is not None], shard)
+    coq_check(ctx, "traces", [(c, t) for c, t, k in cases if t is not None and k == "n"], shard)
+    coq_check(ctx, "vtraces", [(c, t) for c, t, k in cases if t is not None and k == "v"], shard,
+              ty="vsim_in", fn="enc_vsim_in")
     t2 = time.time()
     # free-running stress
     stress(ctx)
@@ -932,6 +1007,43 @@ def run(ctx):
                                      "stress": round(t3 - t2, 1), "nonroot": round(time.time() - t3, 1)}
     ctx.obligation("oracle:manifests", not any(v.kind == "oracle" for v in ctx.violations),
                    f"{ctx.evaluations} runs audited against every writer's independently computed manifest")
+
+
+def report_problems(ctx, case, problems, steps, results, free=False):
+    """oracle failures of one run.  In a verify=True run, failures that are exactly "a writer's post-add
+    verification dropped an object while it was another writer's truncated reflink probe" get VERIFY_SIG."""
+    if not problems:
+        return
+    if case.get("verify"):
+        holder = {}
+        drops, any_drops = set(), set()
+        for tid, st in steps:
+            if st[0] == "ProbeOpen":
+                holder[st[1]] = ("probe", tid)
+            elif st[0] == "Rename":
+                holder[st[2]] = ("full", tid)
+            elif st[0] in ("ProbeUnlink", "Remove"):
+                holder.pop(st[1], None)
+            elif st[0] == "VerifyDrop":
+                h = holder.pop(st[1], None)
+                any_drops.add((tid, st[1]))
+                if h is not None and h[0] == "probe" and h[1] != tid:
+                    drops.add((tid, st[1]))
+        failed = {(int(i), o) for i, r in results.items() if r and r[0] == "ok" for o in r[2] if not o.endswith(".dir")}
+        kinds = {p[0] for p in problems}
+        # free-running: the recorded order of two racing system calls is not reliable, the drop itself is
+        explained = bool(failed) and failed <= (any_drops if free else drops)
+        if explained and kinds <= {"C16:writer-failed:transfer-failed", "C16:requested-object-absent"}:
+            ctx.count("verify:dropped-a-probe-truncated-object")
+            ctx.oracle_fail(
+                VERIFY_SIG,
+                "verify=True, harness running as root: a writer placed an object, another writer's reflink attempt "
+                "(open(final name, O_TRUNC) + unlink in dvc_objects) truncated it, the first writer's post-add "
+                "check_hash read the empty file, removed it and reported the object (and its directory) failed: "
+                f"{sorted(failed)[:3]}; {[p[1] for p in problems][:2]}", case)
+            return
+    for sig, what in problems:
+        ctx.oracle_fail(sig, what, case)
 
 
 def _register(ctx, out, cases, seen_sched, unknown_total):
@@ -950,7 +1062,8 @@ def _register(ctx, out, cases, seen_sched, unknown_total):
     for _tid, s in steps:
         kinds[s[0]] = kinds.get(s[0], 0) + 1
     for k, v in kinds.items():
-        ctx.count("step:" + k, v)
+        if k != "VerifyDrop":
+            ctx.count("step:" + k, v)
     if "prepop" in case:
         ctx.count("prepopulated")
     if "pool" in case:
@@ -983,14 +1096,22 @@ def _register(ctx, out, cases, seen_sched, unknown_total):
     if any(v > 2 for v in per_writer.values()):
         _STATS["multi_txn"] = _STATS.get("multi_txn", 0) + 1
         _STATS.setdefault("multi_txn_case", case)
-    for sig, what in problems:
-        ctx.oracle_fail(sig, what, case)
+    report_problems(ctx, case, problems, steps, run_["results"])
     unknown_total.extend(unknown)
     term = None
+    prepop = {k: bytes.fromhex(v) for k, v in case.get("prepop", {}).items()}
+    if "verify" in case:
+        ctx.count("verify:scheduled")
+        ctx.count("step:VerifyDrop", sum(1 for _t, st in steps if st[0] == "VerifyDrop"))
+        if not unknown:
+            failed = {(int(i), o) for i, r in run_["results"].items() if r and r[0] == "ok"
+                      for o in r[2] if not o.endswith(".dir")}
+            term = vcase_term(case["cls"], wkls, steps, objs, rows, leftovers, failed, prepop)
+        cases.append((case, term, "v"))
+        return
     if not unknown:
-        prepop = {k: bytes.fromhex(v) for k, v in case.get("prepop", {}).items()}
         term = case_term(case["cls"], wkls, steps, objs, rows, leftovers, prepop)
-    cases.append((case, term))
+    cases.append((case, term, "n"))
 
 
 def stress(ctx):
@@ -1008,11 +1129,20 @@ def stress(ctx):
             ctx.count("pool-hashing:free-threads")
         else:
             wkls = gen_workloads(rng, n, big=True)
-        run_ = run_threads(ctx, cls, wkls, [], free=True, shared_state=rng.random() < 0.7, pool=pool)
+        verify = None
+        if VERIFY_STREAM and _r % 4 == 1:
+            verify = [rng.choice(["call", "store"]) for _ in range(n)]
+            verify[0] = "call"
+            ctx.count("verify:free-threads")
+        run_ = run_threads(ctx, cls, wkls, [], free=True, shared_state=rng.random() < 0.7, pool=pool, verify=verify)
         problems, *_ = judge(cls, wkls, run_)
         case = {"cls": cls, "workloads": hexwl(wkls), "mode": "free-threads"}
         if pool:
             case["pool"] = pool
+        if verify:
+            case["verify"] = verify
+            report_problems(ctx, case, problems, abstract(cls, wkls, run_["trace"])[0], run_["results"], free=True)
+            problems = []
         ctx.case(case, overlap(wkls) >= 1)
         ctx.count("stress:threads")
         for sig, what in problems:
@@ -1087,14 +1217,15 @@ def replay_case(ctx, case):
     wkls = unhexwl(case["workloads"])
     cls = case["cls"]
     if case.get("mode") == "free-threads":
-        run_ = run_threads(ctx, cls, wkls, [], free=True, pool=case.get("pool"))
+        run_ = run_threads(ctx, cls, wkls, [], free=True, pool=case.get("pool"), verify=case.get("verify"))
     elif case.get("mode") == "free-processes":
         run_ = run_processes(ctx, cls, wkls, rounds=2, pool=case.get("pool"))
     elif case.get("mode") == "nonroot":
         return nonroot_case(ctx, case)
     else:
         prepop = {k: bytes.fromhex(v) for k, v in case.get("prepop", {}).items()} or None
-        run_ = run_threads(ctx, cls, wkls, case.get("schedule", []), prepop=prepop, pool=case.get("pool"))
+        run_ = run_threads(ctx, cls, wkls, case.get("schedule", []), prepop=prepop, pool=case.get("pool"),
+                           verify=case.get("verify"))
     problems, objs, leftovers, rows = judge(cls, wkls, run_)
     return {"results": {str(k): v for k, v in run_["results"].items()}, "problems": problems,
             "store": {o: (len(b), oct(m)) for o, (b, m) in objs.items()}, "leftovers": leftovers,
